@@ -24,6 +24,48 @@ TABLES = {'pow2ind', 'ind2pow', 'powlrange', 'Lproj', 'directmult', 'powercoeff'
           'FC2ind', 'ind2FC', 'Ylmpow', 'powYlm', 'FCpow', 'powFC', '__INITIALIZED__', 'internalarrays'}
 
 
+def _ieval(e, env):
+    """integer value of an arithmetic expression over the names in env; None if anything else occurs."""
+    if isinstance(e, ast.Constant) and isinstance(e.value, int) and not isinstance(e.value, bool):
+        return e.value
+    if isinstance(e, ast.Name):
+        return env.get(e.id)
+    if isinstance(e, ast.UnaryOp) and isinstance(e.op, (ast.USub, ast.UAdd)):
+        v = _ieval(e.operand, env)
+        return None if v is None else (-v if isinstance(e.op, ast.USub) else v)
+    if isinstance(e, ast.BinOp) and isinstance(e.op, (ast.Add, ast.Sub, ast.Mult, ast.FloorDiv, ast.Mod)):
+        a, b = _ieval(e.left, env), _ieval(e.right, env)
+        if a is None or b is None or (isinstance(e.op, (ast.FloorDiv, ast.Mod)) and b == 0):
+            return None
+        return {ast.Add: a + b, ast.Sub: a - b, ast.Mult: a * b, ast.FloorDiv: a // b if b else None, ast.Mod: a % b if b else None}[type(e.op)]
+    return None
+
+
+def _range_cover(it):
+    """``it``: range(...) / reversed(range(...)) / range(...)[::-1] over a single free name v.  Returns (v, None) when for
+    every v in 0..8 the values are exactly 0..v-1, (v, (v0, missing values)) for the first v0 where some are skipped, None when
+    the expression is not of that kind."""
+    if isinstance(it, ast.Call) and unparse(it.func) == 'reversed' and len(it.args) == 1:
+        it = it.args[0]
+    if isinstance(it, ast.Subscript) and unparse(it.slice) == '::-1':
+        it = it.value
+    if not (isinstance(it, ast.Call) and unparse(it.func) == 'range' and 1 <= len(it.args) <= 3 and not it.keywords):
+        return None
+    free = sorted({x.id for a in it.args for x in ast.walk(a) if isinstance(x, ast.Name)})
+    if len(free) != 1:
+        return None
+    v = free[0]
+    for val in range(0, 9):
+        args = [_ieval(a, {v: val}) for a in it.args]
+        if any(a is None for a in args) or (len(args) == 3 and args[2] == 0):
+            return None
+        got = set(range(*args))
+        miss = sorted(set(range(val)) - got)
+        if miss:
+            return v, (val, miss)
+    return v, None
+
+
 def run(model, rep, tier):
     rep.explanation = __doc__.strip()
     from ._common import caches_for
@@ -73,6 +115,27 @@ def run(model, rep, tier):
     rep.ob('truncate-branches-agree', mod, tc, 'truncatecoeff: copy keeps n <= Nmax ; in place pops every index with n > Nmax (full reverse scan)', ok,
            '' if ok else 'the in-place branch does not examine every entry with the complementary predicate: truncate(N, inplace=True) and '
                          'truncate(N) disagree on unsorted coefficient lists', engine='siblings', qual='Taylor3D.truncatecoeff')
+    # ---- separation projects onto every lower l
+    rep.rule('separate-projects-every-l', 'separatecoeff extracts the l0 component of an (n, l) term for every l0 < l')
+    sc = t3.methods.get('separatecoeff')
+    if sc is None:
+        raise AnalysisError('anchor vanished: Taylor3D.separatecoeff')
+    loops = [lp for lp in walk_local(sc) if isinstance(lp, ast.For) and isinstance(lp.target, ast.Name)
+             and any(isinstance(x, ast.Subscript) and unparse(x.value).endswith('.Lproj') and unparse(x.slice) == lp.target.id
+                     for x in ast.walk(lp))]
+    if not loops:
+        rep.undecided('separatecoeff: the loop over lower l components (indexing Lproj with its own variable) was not located')
+    for lp in loops:
+        cover = _range_cover(lp.iter)
+        if cover is None:
+            rep.undecided('separatecoeff: loop range %s not evaluated' % unparse(lp.iter)[:60])
+            continue
+        var, missing = cover
+        rep.ob('separate-projects-every-l', mod, lp, 'separatecoeff: for %s in %s' % (lp.target.id, unparse(lp.iter)), not missing,
+               '' if not missing else 'for %s = %d the loop skips l0 = %s: a general (n, l) coefficient block holds components of every '
+               'l0 < l (both parities), and the skipped ones are dropped when the block is replaced by its pure-l projection, so '
+               'separate() changes the value of the expansion' % (var, missing[0], missing[1]), engine='bounds',
+               qual='Taylor3D.separatecoeff')
     # ---- class tables
     rep.rule('table-owners', 'class-level index tables are assigned only in make* / __initTaylor?Dindexing__')
     nbad = 0
@@ -115,6 +178,11 @@ BREAKERS += [
     (PE, "            c = [(an, almax, alpha * apow) for (an, almax, apow) in acoeff]", "            c = [(an, almax, apow) for (an, almax, apow) in acoeff]", 'operand-purity'),
     (PE, "            c = [(an, almax, alpha * apow) for (an, almax, apow) in acoeff]", "            c = acoeff[:]", 'operand-purity'),
 ]
+BREAKERS += [
+    (PE, "            for l0 in range(l):", "            for l0 in range(l - 2, -1, -2):", 'separate-projects-every-l'),
+    (PE, "            for l0 in range(l):", "            for l0 in range(1, l):", 'separate-projects-every-l'),
+]
 NEUTRALS = [
+    (PE, "            for l0 in range(l):", "            for l0 in reversed(range(0, l)):"),
     (PE, "            c = [(an, almax, alpha * apow) for (an, almax, apow) in acoeff]", "            c = [(an, almax, apow * alpha) for (an, almax, apow) in list(acoeff)]"),
 ]
